@@ -234,6 +234,9 @@ where
                 if s.len() != len {
                     return Err(format!("{what}: make_contiguous() returned {} elements, expected {len}", s.len()));
                 }
+                if !b.as_slices().1.is_empty() || !b.as_mut_slices().1.is_empty() {
+                    return Err(format!("{what}: as_slices() / as_mut_slices() report two slices after make_contiguous()"));
+                }
             }
             FOp::Views => {}
         }
